@@ -114,3 +114,25 @@ Proof.
   - exact headline_full_by_name.
   - exact headline_full_whole_header_refuted.
 Qed.
+
+(* ---- the hypothesis on the order of first appearance of the prefixes cannot be dropped, not
+   even "up to the order of the fields": 1.a 2.b:int  vs  2.b:int 1.a  have the same plain
+   columns and the same sub-headers under every prefix, but the element type of an inferred list
+   is the type of the LAST integer-keyed entry *)
+Definition ex_swap1 : list str := [[49; 46; 97]; [50; 46; 98; 58; 105; 110; 116]].
+Definition ex_swap2 : list str := [[50; 46; 98; 58; 105; 110; 116]; [49; 46; 97]].
+
+Lemma prefix_order_matters bn :
+  plain_of bn ex_swap1 = plain_of bn ex_swap2
+  /\ (forall k, subs_of bn k ex_swap1 = subs_of bn k ex_swap2)
+  /\ infer_at bn ex_swap1 = Ok (TList (TRec [([98], (TInt, VInt 0))]), VList [VRec [([97], VStr [])]; VRec [([98], VInt 0)]])
+  /\ infer_at bn ex_swap2 = Ok (TList (TRec [([97], (TStr, VStr []))]), VList [VRec [([97], VStr [])]; VRec [([98], VInt 0)]]).
+Proof.
+  assert (P1 : pairs_of bn ex_swap1 = [([49], [97]); ([50], [98; 58; 105; 110; 116])]) by (destruct bn; vm_compute; reflexivity).
+  assert (P2 : pairs_of bn ex_swap2 = [([50], [98; 58; 105; 110; 116]); ([49], [97])]) by (destruct bn; vm_compute; reflexivity).
+  split; [destruct bn; vm_compute; reflexivity|]. split.
+  - intros k. unfold subs_of. rewrite P1, P2. unfold subs_for. cbn [filter fst snd map].
+    destruct (str_eqb [49] k) eqn:E1; [apply str_eqb_eq in E1; subst k; reflexivity|].
+    destruct (str_eqb [50] k); reflexivity.
+  - split; destruct bn; vm_compute; reflexivity.
+Qed.
